@@ -1,0 +1,15 @@
+// Copyright ©2012 The bíogo Authors. All rights reserved.
+// Use of this source code is governed by a BSD-style
+// license that can be found in the LICENSE file.
+
+//go:build verif
+
+package bam
+
+import "github.com/biogo/hts/internal"
+
+// VerifBinFor exposes the BAI bin function (verif build tag only).
+func VerifBinFor(beg, end int) uint32 { return internal.BinFor(beg, end) }
+
+// VerifOverlappingBinsFor exposes the BAI bin list function (verif build tag only).
+func VerifOverlappingBinsFor(beg, end int) []uint32 { return internal.OverlappingBinsFor(beg, end) }
